@@ -50,6 +50,38 @@ PROPS["C16"] = {
     "level_note": "Trusts Verus/Z3, the listed std specifications and the extractor's logged normalisations; unix.rs poll loop, OS and frame convention assumed.",
 }
 
+PROPS["C06"] = {
+    "kani": ["c06_face", "dec_payload"],
+    "verus": [],
+    "explanation": "",
+    "assumptions": [],
+    "trusted_base": COMMON_TRUSTED,
+    "technique": "Kani/CBMC loop-free full-domain harnesses against a set-algebra view and an SGR reference semantics",
+    "level_text": "",
+    "level_note": "",
+}
+
+PROPS["C04"] = {
+    "kani": ["dec_tables", "dec_payload"],
+    "verus": ["numdec"],
+    "explanation": "",
+    "assumptions": [],
+    "trusted_base": COMMON_TRUSTED,
+    "technique": "Kani/CBMC harnesses on payload decoders with number_decode replaced by its contract; Verus on number_decode",
+    "level_text": "",
+    "level_note": "",
+}
+PROPS["C02"] = {
+    "kani": ["dec_payload"],
+    "verus": ["numdec"],
+    "explanation": "",
+    "assumptions": [],
+    "trusted_base": COMMON_TRUSTED,
+    "technique": "Verus contracts on number_decode/utf8_decode; Kani/CBMC harnesses on payload decoders",
+    "level_text": "",
+    "level_note": "",
+}
+
 NOT_APPLICABLE = {
     "C01": "monolithic TerminalRenderer::frame over trait objects/HashMap/Arc; the property needs a terminal screen model as ghost state over whole histories; no callee carries it",
     "C03": "relational over read schedules of a run-time-built DFA + SmallVec + boxed matchers; tokeniser half quantifies over NFA::compile; outside Verus and intractable for CBMC",
